@@ -11,6 +11,7 @@ from __future__ import annotations
 
 import ast
 import itertools
+import re as _re
 from fractions import Fraction
 from typing import Any, Callable, Dict, List, Optional
 
@@ -148,6 +149,15 @@ class FunctionValue:
             raise Undecided(f"too many arguments for {fn.name}")
         for p, v in zip(params, args):
             env[p] = v
+        if fn.args.kwarg is not None:
+            known = set(params) | {a.arg for a in fn.args.kwonlyargs}
+            env[fn.args.kwarg.arg] = {k: v for k, v in kwargs.items() if k not in known}
+            kwargs = {k: v for k, v in kwargs.items() if k in known}
+        else:
+            known = set(params) | {a.arg for a in fn.args.kwonlyargs}
+            for k in kwargs:
+                if k not in known:
+                    raise Raised(f"TypeError(unexpected keyword argument {k})")
         for p in params[len(args):] + [a.arg for a in fn.args.kwonlyargs]:
             if p in kwargs:
                 env[p] = kwargs[p]
@@ -169,6 +179,16 @@ class FunctionValue:
         finally:
             self.ev.depth -= 1
         return None if r is FELL else r
+
+
+class _Closure2:
+    """nested def: closes over the defining environment by reference (reads current values at call time)"""
+
+    def __init__(self, fn: ast.FunctionDef, ev: "Evaluator", env: Dict[str, Any]):
+        self.fn, self.ev, self.env = fn, ev, env
+
+    def __call__(self, *args: Any, **kwargs: Any) -> Any:
+        return FunctionValue(self.fn, self.ev, self.env)(*args, **kwargs)
 
 
 class Return(Exception):
@@ -214,6 +234,10 @@ class Evaluator:
             base = self.eval(n.value, env)
             if isinstance(base, (str, list, dict, tuple, set)) and n.attr in _SAFE_METHODS.get(type(base).__name__, ()):
                 return _bound(base, n.attr)
+            if isinstance(base, _re.Pattern) and n.attr in ("match", "fullmatch", "search"):
+                return _strfn(getattr(base, n.attr))
+            if isinstance(base, _re.Match) and n.attr in ("group", "groups"):
+                return getattr(base, n.attr)
             if isinstance(base, slice) and n.attr in ("start", "stop", "step"):
                 return getattr(base, n.attr)
             if isinstance(base, slice) and n.attr == "indices":
@@ -318,6 +342,11 @@ class Evaluator:
                 raise Raised(f"KeyError({idx!r})")
             if isinstance(base, (list, tuple, str)) and isinstance(idx, slice):
                 return base[idx]
+            if isinstance(base, _re.Match) and isinstance(idx, int):
+                try:
+                    return base[idx]
+                except IndexError:
+                    raise Raised("IndexError(no such group)")
             if isinstance(base, (list, tuple, str)) and isinstance(idx, int) and not isinstance(idx, bool):
                 if -len(base) <= idx < len(base):
                     return base[idx]
@@ -368,7 +397,7 @@ class Evaluator:
             raise Undecided("recursion depth")
 
     def iterate(self, v: Any) -> List[Any]:
-        if isinstance(v, (list, tuple, range, set)):
+        if isinstance(v, (list, tuple, range, set, str)):
             return list(v)
         if isinstance(v, Obj) and v.resolver is not None:
             return self.iterate(v.resolver(v, "__iter__")())
@@ -403,7 +432,7 @@ class Evaluator:
             raise Undecided("bind target")
 
     def truth(self, v: Any) -> bool:
-        if isinstance(v, (bool, int, list, tuple, str, dict, set)) or v is None:
+        if isinstance(v, (bool, int, list, tuple, str, dict, set, _re.Match)) or v is None:
             return bool(v)
         m = self._obj_method(v, "__bool__")
         if m is not None:
@@ -574,6 +603,12 @@ class Evaluator:
             else:
                 args.append(self.eval(a, env))
         kwargs = {k.arg: self.eval(k.value, env) for k in n.keywords if k.arg}
+        for k in n.keywords:
+            if k.arg is None:
+                extra = self.eval(k.value, env)
+                if not isinstance(extra, dict):
+                    raise Undecided("** of abstract value")
+                kwargs.update(extra)
         if d == "sum" and f is self.funcs.get(d) and args and any(isinstance(x, Obj) for x in self.iterate(args[0])):
             acc = args[1] if len(args) > 1 else 0
             for x in self.iterate(args[0]):
@@ -708,6 +743,8 @@ class Evaluator:
             return
         elif isinstance(st, (ast.Global, ast.Nonlocal)):
             return
+        elif isinstance(st, ast.FunctionDef):
+            env[st.name] = _Closure2(st, self, env)
         elif isinstance(st, ast.Try):
             try:
                 self.block(st.body, env)
@@ -798,6 +835,15 @@ def _len(x: Any) -> int:
     raise Undecided("len of abstract value")
 
 
+def _strfn(f: Callable[..., Any]) -> Callable[..., Any]:
+    def g(*a: Any) -> Any:
+        if not all(isinstance(x, (str, int)) for x in a):
+            raise Undecided("string function on abstract value")
+        return f(*a)
+
+    return g
+
+
 def _int(x: Any, *base: Any) -> int:
     if isinstance(x, (int, bool)) and not base:
         return int(x)
@@ -846,6 +892,14 @@ BUILTINS: Dict[str, Callable[..., Any]] = {
     "dict": lambda *a: dict(*a),
     "set": lambda *a: set(*a),
     "slice": lambda *a: slice(*a),
+    "re.compile": _strfn(_re.compile),
+    "hex": _strfn(hex),
+    "ord": _strfn(ord),
+    "chr": _strfn(chr),
+    "abs": abs,
+    "deepcopy": lambda x: __import__("copy").deepcopy(x) if _plain(x) or isinstance(x, (list, tuple, dict)) else (_ for _ in ()).throw(Undecided("deepcopy")),
+    "copy.deepcopy": lambda x: __import__("copy").deepcopy(x),
+    "copy.copy": lambda x: __import__("copy").copy(x),
     "iter": lambda x: list(x),
     "itertools.chain": lambda *xs: [y for x in xs for y in x],
     "functools.reduce": lambda f, xs, *init: __import__("functools").reduce(f, list(xs), *init),
